@@ -8,6 +8,7 @@ import (
 
 	"verif/internal/hx"
 	"verif/internal/refdl"
+	rx "verif/internal/refexpr"
 	"verif/internal/sup"
 )
 
@@ -140,9 +141,11 @@ func init() {
 			ownChecks := [][]refdl.Check{{}, {chk(q(fRightW))}, {chk(q(fAdmin), q(fAllowedF))}}
 			authorities := []refdl.Block{{Facts: []refdl.Atom{fResF, fUser}}, {Facts: []refdl.Atom{fRightR}, Rules: []refdl.Rule{rAllowed2}}}
 			nc, np, no, na := int64(len(contents)), int64(len(probes)), int64(len(ownChecks)), int64(len(authorities))
-			size := nc * np * no * na * 2
+			size := nc * np * no * na * 2 * 2
 			return []*sup.Space{{Name: "block-content-invisible-elsewhere", Size: func(*sup.Ctx) int64 { return size }, Run: func(i int64, w *sup.W) {
 				pos := int(i % 2) // 0: X-block first, other block second; 1: other block first
+				i /= 2
+				otherHasFact := i%2 == 1 // the other block also carries a fact of its own
 				i /= 2
 				authority := authorities[i%na]
 				i /= na
@@ -153,6 +156,9 @@ func init() {
 				auth := refdl.Block{Facts: []refdl.Atom{fOpRead}}
 				var pol []refdl.Policy
 				other := refdl.Block{}
+				if otherHasFact {
+					other.Facts = []refdl.Atom{atom("marker", rx.Str("other"))}
+				}
 				for _, p := range pr {
 					qq := c03ProbeQueries[p.q]
 					switch p.loc {
